@@ -9,6 +9,7 @@ mod c06;
 mod c07;
 mod c08;
 mod c13;
+mod c14;
 
 use ctx::{Ctx, Tier};
 use std::collections::BTreeMap;
@@ -49,6 +50,7 @@ fn main() {
         "C07" => { c07::run(&mut ctx); ctx.finish("corr.C07", "run_C07"); }
         "C08" => { c08::run(&mut ctx); ctx.finish("corr.C08", "run_C08"); }
         "C13" => { c13::run(&mut ctx); ctx.finish("corr.C13", "run_C13"); }
+        "C14" => { c14::run(&mut ctx); ctx.finish("corr.C14", "run_C14"); }
         _ => { eprintln!("unknown property {}", prop); std::process::exit(2); }
     }
 }
